@@ -195,7 +195,13 @@ func (mv mapValue) IndexValue(iv Value) Value {
 	ir := reflect.ValueOf(iv.Interface())
 	kt := mr.Type().Key()
 	if ir.IsValid() && ir.Type().ConvertibleTo(kt) && ir.Type().Comparable() {
-		er := mr.MapIndex(ir.Convert(kt))
+		kr := ir.Convert(kt)
+		// the index must survive the conversion: Go converts 65 to "A", 2.5 to 2 and 300 to uint8(44),
+		// none of which is the key that was asked for
+		if kt.Kind() != reflect.Interface && (!kt.ConvertibleTo(ir.Type()) || kr.Convert(ir.Type()).Interface() != ir.Interface()) {
+			return nilValue
+		}
+		er := mr.MapIndex(kr)
 		if er.IsValid() {
 			return ValueOf(er.Interface())
 		}
